@@ -388,6 +388,10 @@ func packCase(o *hx.Out, cat string, thr int, id int32, data []byte, oldcap int)
 	trail := []byte{0x80, 0x01, 0xff, 0x00}[:o.R.Intn(5)]
 	input := append(append([]byte{}, frame...), trail...)
 	outcome, res, left := unpackCase(o, cat+".unpack", thr, 1, oldcap, input)
+	if len(data) > listLimit {
+		// too long for the list model: the model's verdict by arithmetic (C07_own_frame_verdict)
+		o.Case(cat+".verdict", true, fmt.Sprintf("own %d %d %d", thr, id, len(data)), fmt.Sprintf("own %d %d %d %s", thr, id, len(data), outcome))
+	}
 	if inDomain {
 		if outcome != "ok" {
 			o.Fail("C07.roundtrip.rejected", "%s outcome=%s frame=%s", desc, outcome, short(frame))
